@@ -143,9 +143,11 @@ def const_policy(flow=0.01, head=50.0):
 
 
 def _leaks(wn, m, f):
+    """the solver only touches variables that occur in the model: a leak variable without a leak row keeps its (stale) value"""
     if hasattr(m, 'leak_rate'):
         for name in list(m.leak_rate.keys()) if hasattr(m.leak_rate, 'keys') else []:
-            m.leak_rate[name].value = f(name)
+            if hasattr(m, 'leak_con') and name in m.leak_con:
+                m.leak_rate[name].value = f(name)
 
 
 def table_policy(flow_of, head_of=None, leak_of=None):
